@@ -92,6 +92,93 @@ def run(ctx):
                   file=r["file"], line=back[1] if back else r["line"])
         ctx.sample(f"password: Kdf::{v} -> {short(outs[0])} -> {[short(x) for x in (back[0] if back else [])]}")
 
+    # ---- (a') field routing: the stored fields come back in the fields they were taken from -------------------
+    # (added after seeded change C12: `Kdf::SSHA512(hash, salt) => DbPasswordV1::SSHA512(salt.clone(), hash.clone())` — the pattern
+    # binds the tuple fields under swapped names, so hash and salt change places in the stored record)
+    def slots(pat):
+        """{local id: slot} for the fields a variant pattern binds; slot = position (tuple variant) or field name"""
+        out = {}
+        p = pat
+        while p.get("p") == "ref":
+            p = p["pat"]
+        if p.get("p") == "tstruct":
+            for i, sp in enumerate(p["pats"]):
+                while sp.get("p") == "ref":
+                    sp = sp["pat"]
+                if sp.get("p") == "bind":
+                    out[sp["local"]] = i
+        elif p.get("p") == "struct":
+            for fl in p["fields"]:
+                sp = fl["pat"]
+                while sp.get("p") == "ref":
+                    sp = sp["pat"]
+                if sp.get("p") == "bind":
+                    out[sp["local"]] = fl["f"]
+        return out
+
+    def root_local(e):
+        e = unwrap(e)
+        while isinstance(e, dict):
+            if e.get("e") == "mcall":
+                e = unwrap(e["recv"])
+            elif e.get("e") == "call" and len(e.get("args", [])) == 1 and not e.get("ctor"):
+                e = unwrap(e["args"][0])
+            elif e.get("e") == "path" and "local" in e["res"]:
+                return e["res"]["local"]
+            else:
+                return None
+        return None
+
+    def routing(match_node, src_enum, dst_enum):
+        """{src variant: {src slot: dst slot}} for arms that construct exactly one dst variant"""
+        res = {}
+        for a in match_node["arms"]:
+            pats = a["pat"]["pats"] if a["pat"].get("p") == "or" else [a["pat"]]
+            for p in pats:
+                d = def_of(p) or (p.get("path", {}) or {}).get("def", "")
+                pp = p
+                while pp.get("p") == "ref":
+                    pp = pp["pat"]
+                d = (pp.get("path") or {}).get("def", "")
+                if not d.startswith(src_enum + "::"):
+                    continue
+                sl = slots(pp)
+                ctor = [n for n in walk(a["body"]) if n.get("e") in ("call", "struct") and def_of(n).startswith(dst_enum + "::")]
+                if len(ctor) != 1:
+                    continue
+                c = ctor[0]
+                m = {}
+                if c.get("e") == "call":
+                    for j, arg in enumerate(c["args"]):
+                        rl = root_local(arg)
+                        if rl in sl:
+                            m[sl[rl]] = j
+                else:
+                    for fl in c["fields"]:
+                        rl = root_local(fl["x"])
+                        if rl in sl:
+                            m[sl[rl]] = fl["f"]
+                res[d] = (def_of(c), m)
+        return res
+
+    wr = routing(wm, "kanidm_lib_crypto::Kdf", "kanidm_lib_crypto::DbPasswordV1")
+    rr = routing(rm, "kanidm_lib_crypto::DbPasswordV1", "kanidm_lib_crypto::Kdf")
+    n_routes = 0
+    for kv, (dbv, m1) in sorted(wr.items()):
+        back = rr.get(dbv)
+        if back is None or back[0] != kv:
+            continue
+        m2 = back[1]
+        for src_slot, db_slot in sorted(m1.items(), key=str):
+            n_routes += 1
+            dst = m2.get(db_slot)
+            ctx.check(dst == src_slot, "K5-password-fields", r["fn"], f"field:{short(kv,1)}.{src_slot}",
+                      f"Kdf::{short(kv,1)}.{src_slot} -> {short(dbv,1)}.{db_slot} -> .{dst}",
+                      f"Kdf::{short(kv,1)} field {src_slot} is stored in {short(dbv,1)} field {db_slot}, which is read back into field {dst}: after one store/load "
+                      "cycle (database, backup, replication) the hash material sits in the wrong field (e.g. salt and hash swapped) and the password no longer verifies",
+                      file=w["file"], line=w["line"])
+    ctx.floor("K5-password-fields", "password field routes traced", n_routes, 25)
+
     # ---- (b) value sets -----------------------------------------------------
     rd = ctx.fn(LIB, "kanidmd_lib::valueset::from_db_valueset_v2")
     m = find_match_on(rd["body"], "DbValueSetV2")
